@@ -1,20 +1,189 @@
-"""C13 - refused or failing operations do not corrupt the tree (shared one-step driver, see vlib/mutate.py)."""
+"""C13 - refused or failing operations do not corrupt the tree.
 
+Part A (refusals): the shared one-step driver (vlib/mutate.py); whenever the
+call raised, the observation must equal the pre-state and the C01-C03
+predicates must hold.
+Part B (callback faults, M-cb): per operation that takes a user callback and
+per shape, the k-th invocation of the callback raises Boom (k symbolic); the
+tree must satisfy C01-C03 afterwards and read-only operations must leave it
+unchanged.
+"""
+
+import io
+
+from vlib import build as B
 from vlib import mutate as MU
 from vlib import mutprops as MP
+from vlib.build import build, shape_str, shapes_upto
+from vlib.stubs import install_json_stub
 
 ID = "C13"
-FUNCTIONS = MP.FUNCTIONS
-STUBS = MP.STUBS
-ASSUMPTIONS = MP.ASSUMPTIONS
+FUNCTIONS = MP.FUNCTIONS + [
+    "Tree.calc_data_id", "Node.filter", "Node._add_filtered", "Node.sort_children", "Node.visit", "Node._search",
+    "Tree.save", "Tree.load", "Tree.to_dict_list", "Tree.from_dict", "dot.node_to_dot", "common.call_mapper", "common.call_predicate",
+]
+STUBS = MP.STUBS + ["M-cb (callback wrapper raising Boom at the k-th invocation)", "S-json"]
+ASSUMPTIONS = MP.ASSUMPTIONS + [
+    "Part B: labels are concrete distinct strings, the fault position k is symbolic in 0..2n+2 (k beyond the number of invocations = no fault); one faulting callback per run",
+]
 TIMEOUTS = {"quick": (300, 30), "thorough": (1200, 60)}
-BOUNDS = MP.bounds
-params = MU.params
+params_A = MU.params
 TWIN_REQUIRED = False  # many shards cannot be refused at all; the evidence counts the twins reached
+FAULT_OPS = [
+    "add_calc", "set_data_calc", "find_calc", "filter", "filtered", "copy_pred", "find_match", "sort_key", "visit",
+    "save_mapper", "load_mapper", "to_dict_list_mapper", "from_dict_mapper", "to_dot_mappers",
+]
+READ_ONLY = {"find_calc", "filtered", "copy_pred", "find_match", "visit", "save_mapper", "load_mapper", "to_dict_list_mapper", "from_dict_mapper", "to_dot_mappers"}
+
+
+def BOUNDS(tier):
+    b = MP.bounds(tier)
+    b["fault_ops"] = FAULT_OPS
+    b["fault_shapes_max_nodes"] = 3 if tier == "quick" else 4
+    return b
 
 
 def shards(tier):
-    return MP.make_shards(tier)
+    out = MP.make_shards(tier)
+    n = 3 if tier == "quick" else 4
+    for op in FAULT_OPS:
+        for sh in shapes_upto(n, 1):
+            out.append({"name": "fault-%s-%s" % (op, shape_str(sh)), "kind": "fault", "op": op, "shape": list(sh)})
+    return out
 
 
-body = MP.c13_oracle
+def params(desc):
+    if desc.get("kind") == "fault":
+        n = len(desc["shape"])
+        return [("k", "sel", 0, 2 * n + 2), ("j", "sel", 0, n - 1)]
+    return params_A(desc)
+
+
+def setup_symbolic(desc):
+    if desc.get("kind") == "fault":
+        install_json_stub()
+
+
+class Boom(Exception):
+    pass
+
+
+class Faulty:
+    """Wraps a callback; the k-th invocation (1-based) raises Boom."""
+
+    def __init__(self, fn, k):
+        self.fn, self.k, self.calls, self.armed = fn, k, 0, False
+
+    def __call__(self, *a, **kw):
+        if self.armed:
+            self.calls += 1
+            if self.calls == self.k:
+                raise Boom()
+        return self.fn(*a, **kw)
+
+
+def body(ctx, desc, x):
+    if desc.get("kind") != "fault":
+        return MP.c13_oracle(ctx, desc, x)
+    from nutree import Tree
+
+    shape = tuple(desc["shape"])
+    n = len(shape)
+    op = desc["op"]
+    k, j = x["k"], x["j"]
+    labels = ["n%d" % i for i in range(n)]
+    calc = Faulty(lambda tree, data: "id:" + data if isinstance(data, str) else hash(data), k)
+    uses_calc = op in ("add_calc", "set_data_calc", "find_calc")
+    tree, nodes = build(shape, labels, calc=calc if uses_calc else None)
+    obs0 = B.observe(tree, nodes)
+    cb = Faulty(lambda *a: None, k)
+    boom = False
+    from vlib import ser
+
+    try:
+        if op == "add_calc":
+            calc.armed = True
+            nodes[j].add("new")
+        elif op == "set_data_calc":
+            calc.armed = True
+            nodes[j].set_data("renamed")
+        elif op == "find_calc":
+            calc.armed = True
+            tree.find_all("n0")
+            tree.find_first("n1")
+            "n0" in tree
+        elif op in ("filter", "filtered", "copy_pred"):
+            cb.fn = lambda nd: int(nd.data[1:]) % 2 == 0
+            cb.armed = True
+            if op == "filter":
+                tree.filter(cb)
+            elif op == "filtered":
+                tree.filtered(cb)
+            else:
+                nodes[j].copy(predicate=cb)
+        elif op == "find_match":
+            cb.fn = lambda nd: nd.data.endswith("1")
+            cb.armed = True
+            tree.find_all(match=cb)
+            nodes[j].find_first(match=cb)
+        elif op == "sort_key":
+            cb.fn = lambda nd: -int(nd.data[1:])
+            cb.armed = True
+            tree.sort(key=cb, deep=True)
+        elif op == "visit":
+            cb.fn = lambda nd, memo: None
+            cb.armed = True
+            tree.visit(cb)
+            nodes[j].visit(cb, add_self=True)
+        elif op == "save_mapper":
+            cb.fn = lambda nd, data: data
+            cb.armed = True
+            tree2, _ = build(shape, [("t", i) for i in range(n)])  # non-str data: the mapper is called
+            obs2 = B.observe(tree2, _)
+            try:
+                tree2.save(ser.open_channel(ctx), mapper=cb)
+            finally:
+                if B.obs_equal(B.observe(tree2, _), obs2) or B.inv_all(tree2):
+                    return "fault:save:tree-changed"
+        elif op == "load_mapper":
+            tree2, _ = build(shape, [("t", i) for i in range(n)])
+            fp = ser.open_channel(ctx)
+            tree2.save(fp, mapper=lambda nd, data: {"v": nd.data[1]})
+            ser.rewind(fp)
+            cb.fn = lambda parent, data: ("t", data["v"])
+            cb.armed = True
+            t3 = Tree.load(fp, mapper=cb)
+            if B.inv_all(t3):
+                return "fault:load:result-corrupt"
+        elif op == "to_dict_list_mapper":
+            cb.fn = lambda nd, data: data
+            cb.armed = True
+            tree.to_dict_list(mapper=cb)
+        elif op == "from_dict_mapper":
+            doc = tree.to_dict_list()
+            cb.fn = lambda parent, item: item["data"]
+            cb.armed = True
+            t3 = Tree.from_dict(doc, mapper=cb)
+            if B.inv_all(t3):
+                return "fault:from_dict:result-corrupt"
+        elif op == "to_dot_mappers":
+            cb.fn = lambda nd, data: None
+            cb.armed = True
+            list(tree.to_dot(node_mapper=cb, edge_mapper=cb))
+    except Boom:
+        boom = True
+    if boom:
+        ctx.mark()
+    c = B.inv_all(tree)
+    if c:
+        return "fault:%s:%s" % (op, c)
+    if op in READ_ONLY or not boom and op in ("find_calc",):
+        c = B.obs_equal(B.observe(tree, nodes), obs0)
+        if c:
+            return "fault:%s:read-only-op-changed-tree:%s" % (op, c)
+    if boom and op in ("add_calc", "set_data_calc"):
+        # the id callback runs before anything is touched
+        c = B.obs_equal(B.observe(tree, nodes), obs0)
+        if c:
+            return "fault:%s:changed:%s" % (op, c)
+    return ""
